@@ -86,8 +86,11 @@ CLAIMED["C17"] = {
     "note": "Product decomposition of the time decoder over field groups is "
             "a stated bound (the decoder reads the fields by independent "
             "calls of one reader and chrono validates date and time of day "
-            "separately). Time *encoding* (core::fmt) and the decimal text "
-            "of serials above 2^32 are outside the claim; take_opt_from with "
+            "separately). The encoder's choice of form (UTCTime exactly for "
+            "1950..=2049) is decided for every second of years 1..9999 via "
+            "the DER length; the digits it writes (core::fmt) and the "
+            "decimal text of serials above 2^32 are outside the claim; "
+            "take_opt_from with "
             "symbolic input is thorough-tier only.",
 }
 
